@@ -123,8 +123,15 @@ def check(ctx):
             want_ty = shape[len("nonempty-array<"):-1]
             from lib.seq import Seq, show_seq, X
             calls = [e for _, e in effs if e["kind"] == "call"]
+            s = None
             if calls and len(calls) == len(effs):
                 s = Seq(fn, pv).contribution(calls, md.next_bb)
+            elif len(effs) == 1 and effs[0][1]["kind"] == "assign":
+                # `field = <array>.into_iter().map(f).collect::<Result<_>>()?`: the list was empty before (a label occurs once)
+                e0 = effs[0][1]
+                from lib.seq import normalize
+                s = normalize(Seq(fn, pv).of_value(e0["value"], 0, (e0["bb"], e0["idx"])))
+            if s is not None:
                 det["sequence"] = show_seq(s)[:200]
                 if s[0] == "map" and s[2][0] == "elems" and s[2][2] == 0 and s[2][3] is None:
                     F, src = s[1], sym(s[2][1])
